@@ -5,6 +5,7 @@ CONSTANTS
   Classes = {"MA"}
   InitStreams <- InitStreamsOne
   ApplyCfgs <- ApplyCfgsMap
+  Lifts = {"none"}
   Separator = FALSE
   Hist = TRUE
   Alphabet <- AlphabetCollide
